@@ -62,24 +62,45 @@ func refSeed() int64 {
 	return 1
 }
 
-// refReporter caps the number of printed failures (the total is still reported).
+// refReporter caps the number of printed failures per check site (the totals are still reported).
 type refReporter struct {
-	t   *testing.T
-	n   int
-	max int
+	t      *testing.T
+	n      int
+	max    int // per check site (= format string)
+	counts map[string]int
 }
 
 func (r *refReporter) errorf(format string, args ...interface{}) {
+	if r.counts == nil {
+		r.counts = map[string]int{}
+	}
 	r.n++
-	if r.n <= r.max {
+	r.counts[format]++
+	if r.counts[format] <= r.max {
 		r.t.Errorf(format, args...)
 	}
 }
 
 func (r *refReporter) done() {
-	if r.n > r.max {
-		r.t.Errorf("%d failures in total, only the first %d printed", r.n, r.max)
+	var keys []string
+	for k, c := range r.counts {
+		if c > r.max {
+			keys = append(keys, k)
+		}
 	}
+	sort.Strings(keys)
+	for _, k := range keys {
+		r.t.Errorf("%d failures of the kind %q, only the first %d printed", r.counts[k], k, r.max)
+	}
+}
+
+// refLazy defers an expensive description until a failure is actually printed.
+type refLazy func() string
+
+func (l refLazy) String() string { return l() }
+
+func refDumpLazy(roots ...*Cell) refLazy {
+	return func() string { return refDump(roots...) }
 }
 
 // ---------------------------------------------------------------------------------------------------------------------
@@ -131,6 +152,18 @@ func refPad(bl []bool) []byte {
 	return out
 }
 
+// refData returns the cell's data as stored in a representation: the first ceil(n/8) bytes, with the bits behind the
+// logical length replaced by the completion tag (same value as refData(c), computed bytewise).
+func refData(c *Cell) []byte {
+	n := c.bits.len
+	out := make([]byte, (n+7)/8)
+	copy(out, c.bits.buf[:(n+7)/8])
+	if r := uint(n % 8); r != 0 {
+		out[n/8] = out[n/8]&(0xff<<(8-r)) | 0x80>>r
+	}
+	return out
+}
+
 func refKids(c *Cell) []*Cell {
 	var out []*Cell
 	for _, r := range c.refs {
@@ -155,7 +188,7 @@ func (h *refHasher) mask(c *Cell) (int, error) {
 		if nb < 8 {
 			return 0, fmt.Errorf("reference: exotic cell with %d data bits", nb)
 		}
-		data = refPad(refCellBits(c))
+		data = refData(c)
 		if data[0] != byte(c.cellType) {
 			return 0, fmt.Errorf("reference: exotic cell of type %d starts with byte %#x", c.cellType, data[0])
 		}
@@ -251,7 +284,7 @@ func (h *refHasher) hashDepth1(c *Cell, level int) (refHD, error) {
 	nb := c.bits.len
 	pruned := c.cellType == PrunedBranchCell
 	if pruned && mi != m {
-		data := refPad(refCellBits(c))
+		data := refData(c)
 		idx := bits.OnesCount(uint(mi))
 		n := bits.OnesCount(uint(m))
 		copy(res.hash[:], data[2+32*idx:2+32*idx+32])
@@ -265,7 +298,7 @@ func (h *refHasher) hashDepth1(c *Cell, level int) (refHD, error) {
 	}
 	repr := []byte{byte(len(kids) + exotic + 32*mi), byte((nb+7)/8 + nb/8)}
 	if j == 0 || pruned {
-		repr = append(repr, refPad(refCellBits(c))...)
+		repr = append(repr, refData(c)...)
 	} else {
 		prev, err := h.hashDepth(c, j-1)
 		if err != nil {
@@ -336,7 +369,7 @@ func refDump(roots ...*Cell) string {
 	}
 	var sb strings.Builder
 	for i, c := range cells {
-		fmt.Fprintf(&sb, "#%d type=%d mask=%d bits=%d data=%x refs=[", i, c.cellType, c.mask, c.bits.len, refPad(refCellBits(c)))
+		fmt.Fprintf(&sb, "#%d type=%d mask=%d bits=%d data=%x refs=[", i, c.cellType, c.mask, c.bits.len, refData(c))
 		for k, r := range refKids(c) {
 			if k > 0 {
 				sb.WriteByte(' ')
@@ -364,14 +397,11 @@ func refSameStructure(a, b *Cell) string {
 		if a.mask != b.mask {
 			return fmt.Sprintf("%s: level mask %d vs %d", path, a.mask, b.mask)
 		}
-		ab, bb := refCellBits(a), refCellBits(b)
-		if len(ab) != len(bb) {
-			return fmt.Sprintf("%s: %d bits vs %d bits", path, len(ab), len(bb))
+		if a.bits.len != b.bits.len {
+			return fmt.Sprintf("%s: %d bits vs %d bits", path, a.bits.len, b.bits.len)
 		}
-		for i := range ab {
-			if ab[i] != bb[i] {
-				return fmt.Sprintf("%s: bit %d differs", path, i)
-			}
+		if ad, bd := refData(a), refData(b); !bytes.Equal(ad, bd) {
+			return fmt.Sprintf("%s: data %x vs %x", path, ad, bd)
 		}
 		ak, bk := refKids(a), refKids(b)
 		if len(ak) != len(bk) {
